@@ -4,7 +4,7 @@ KANI = "Kani 0.68 function contracts / loop-free full-domain harnesses over CBMC
 
 ENGINES = [
     {"name": "kani-contracts", "path": "/verif/tools/run_check.py",
-     "serves_properties": ["C01", "C08", "C09", "C11", "C12", "C13", "C14", "C15", "C17", "C22", "C23", "C29", "C30", "C36"],
+     "serves_properties": ["C01", "C08", "C09", "C11", "C12", "C13", "C14", "C15", "C17", "C22", "C23", "C29", "C30", "C31", "C36"],
      "kind_free_text": KANI},
     {"name": "verus+kani", "path": "/verif/tools/extract.py",
      "serves_properties": ["C02", "C16"],
@@ -139,6 +139,13 @@ CLAIMED = {
         "text": "CLASSIFICATION AND EXEC-STACK PREDICATE ONLY - the AND/OR fold over SEVERAL inputs, the heart of the property, is NOT decided (hashbrown crashes the Kani compiler on the real crate and the extraction exhausts CBMC for two or more files), nor is the PT_GNU_STACK computation in layout. CBMC proves for every 32-bit property type that x86-64 and AArch64 merge it under the class GNU ld uses (generic AND/OR ranges on every target, x86 AND/OR/OR_AND ranges, AArch64 FEATURE_1_AND) and reject types outside every range; that an executable-stack request is refused exactly without -z execstack; and, for a single input, the merge result, the -z x86-64-vN OR-in and the unclassified-type error.",
         "note": "The single-input merge obligations run on a mechanical extraction with a 40-line association-list stand-in for std HashMap and itertools (listed as assumptions). One defect found and repaired (AArch64 generic ranges).",
     },
+    "C31": {
+        "category": "proof",
+        "design_ref": "DESIGN.md section 6, C31",
+        "technique": "Kani full-domain harnesses on the real elf::convert_elf_visibility and layout::can_export_symbol::<Elf> (GraphResources/SymbolDb as nondeterministic storage) for every st_info / st_other / st_shndx / ValueFlags value",
+        "text": "DYNAMIC-EXPORT PREDICATE ONLY - which symbols reach it, .symtab contents and ordering, values/sizes/types, imports and --export-list matching are not decided. For every symbol-table entry and every flag value CBMC proves on the real code that a definition is given a .dynsym entry exactly when it is defined, non-local, of default or protected visibility, the canonical definition of its name and not demoted to local, and that hidden and internal symbols are never exported. Loop-free predicate over a finite domain: a proof.",
+        "note": "Trusted: gABI visibility rules. Assumed: no --export-list (its lookup runs over hashbrown). DOWNGRADE_TO_LOCAL (set by --exclude-libs / version scripts) is an input flag here; should_downgrade_to_local is not checked. One defect found and repaired (STV_INTERNAL treated as default visibility).",
+    },
 }
 
 # properties whose check has run green on the unchanged tree (only these are claimed)
@@ -146,7 +153,7 @@ READY = {"C01", "C02", "C09", "C12", "C13", "C14", "C16", "C17", "C23", "C29"}
 
 PENDING = {
     pid: "check under construction in this session (planned claim, see DESIGN.md section 6); not claimed until its obligations run green"
-    for pid in ["C08", "C11", "C15", "C22", "C30", "C36"]
+    for pid in ["C08", "C11", "C15", "C22", "C30", "C31", "C36"]
 }
 
 NOT_APPLICABLE = {
@@ -165,7 +172,6 @@ NOT_APPLICABLE = {
     "C26": "quantifies over schedules (same reason as C06)",
     "C27": "relational property of two whole links",
     "C28": "relational property of whole links under different options",
-    "C31": "whole-output statement over Layout/SymbolDb; the deciding predicates are methods over those contexts, which cannot be constructed symbolically",
     "C32": "find_match runs over hashbrown tables (crashes the Kani 0.68 compiler), glob::Pattern and C++ demangling; the rest is table emission over Layout",
     "C33": "apply_wrapped_symbol_overrides mutates the bucketed SymbolDb (hashbrown); not constructible under either verifier",
     "C34": "a whole-tool property over parsed binaries and a disassembler (iced-x86)",
